@@ -5,6 +5,7 @@ import (
 	"context"
 	"encoding/json"
 	"fmt"
+	"github.com/itchio/wharf/pwr/bowl"
 	"io"
 	"os"
 	"strings"
@@ -465,6 +466,30 @@ func c18One(env *Env, m *wvlib.Model, c *C18Case) {
 	} else if cls, det := c18Oracle(c, S, D, cuts, impl); cls != "" {
 		env.R.Violate(cls, det, c)
 	}
+	if c.Mode != "wound" && c.Seed%3 == 0 {
+		// the same content reaching the validating pool through a bowl that writes into it (whole-file
+		// transposition, and the bowl's entry writer): the pool's verdict has to reach the bowl's caller
+		for _, via := range []string{"transpose", "entry-writer"} {
+			verdict, inner, err := c18ViaPoolBowl(S, D, via, cuts)
+			if err != nil {
+				env.R.Violate("pool-error", "pool bowl: "+err.Error(), c)
+				continue
+			}
+			// what the pool itself lets through (theorem C18.passthrough): the signed content, or a prefix of it that
+			// ends on a block boundary
+			same := bytes.HasPrefix(S, D) && (len(D) == len(S) || len(D)%pBS == 0)
+			if verdict == nil && !same {
+				env.R.Violate("bad-block-accepted:pool-bowl:"+via, fmt.Sprintf("%s: content that deviates from the signed one (%d bytes written, %d signed) went through a pool bowl over a validating pool without any error; %d bytes reached the inner pool", c.Info, len(D), len(S), len(inner)), c)
+			}
+			if verdict != nil && same {
+				env.R.Violate("good-content-rejected:pool-bowl:"+via, verdict.Error(), c)
+			}
+			if verdict == nil && same && !bytes.Equal(inner, D) {
+				env.R.Violate("bad-block-forwarded:pool-bowl:"+via, "signed content accepted but the inner pool holds something else", c)
+			}
+			env.R.Count("through-pool-bowl:"+via, 1)
+		}
+	}
 	st, c1 := env.Scratch.Tok(S)
 	dt, c2 := env.Scratch.Tok(D)
 	cs := make([]string, len(cuts))
@@ -552,4 +577,64 @@ func runC18(env *Env) {
 		R.ModelLines += m.Lines
 		m.Close()
 	}
+}
+
+// c18ViaPoolBowl writes D to file 0 of a validating pool (signed content S, error mode) through bowl.NewPoolBowl:
+// via Transpose (the old build's file 0 holds D) or via the bowl's entry writer (write calls as in cuts).
+// Returns the first error any step returned, and what reached the inner pool.
+func c18ViaPoolBowl(S, D []byte, via string, cuts []int) (verdict error, innerBytes []byte, err error) {
+	defer func() {
+		if r := recover(); r != nil {
+			err = fmt.Errorf("PANIC %v", r)
+		}
+	}()
+	sig, err := memSignature([][]byte{S})
+	if err != nil {
+		return nil, nil, err
+	}
+	inner := &memWPool{memPool: memPool{files: [][]byte{S}}}
+	vp := &pwr.ValidatingPool{Pool: inner, Container: sig.Container, Signature: sig}
+	oldPool := &memPool{files: [][]byte{D}}
+	b, err := bowl.NewPoolBowl(bowl.PoolBowlParams{TargetContainer: memContainer([][]byte{D}), SourceContainer: sig.Container, TargetPool: oldPool, OutputPool: vp})
+	if err != nil {
+		return nil, nil, err
+	}
+	switch via {
+	case "transpose":
+		verdict = b.Transpose(bowl.Transposition{TargetIndex: 0, SourceIndex: 0})
+	default:
+		w, werr := b.GetWriter(0)
+		if werr != nil {
+			return nil, nil, werr
+		}
+		if _, rerr := w.Resume(nil); rerr != nil {
+			return nil, nil, rerr
+		}
+		pos := 0
+		for _, n := range cuts {
+			if _, e := w.Write(D[pos : pos+n]); e != nil && verdict == nil {
+				verdict = e
+				break
+			}
+			pos += n
+		}
+		if verdict == nil && pos < len(D) {
+			if _, e := w.Write(D[pos:]); e != nil {
+				verdict = e
+			}
+		}
+		if e := w.Finalize(); e != nil && verdict == nil {
+			verdict = e
+		}
+		if e := w.Close(); e != nil && verdict == nil {
+			verdict = e
+		}
+	}
+	if e := b.Commit(); e != nil && verdict == nil {
+		verdict = e
+	}
+	if wb := inner.written[0]; wb != nil {
+		innerBytes = wb.Bytes()
+	}
+	return verdict, innerBytes, nil
 }
